@@ -171,7 +171,9 @@ class CacheStore(object):
                 raise
 
         with fd:
-            if not self._cache_is_valid(store_filename, filename):
+            # Judge the entry that was opened: the name may refer to a newer
+            # entry by now if another scanner has stored one in the meantime.
+            if os.fstat(fd.fileno()).st_mtime < os.stat(filename).st_mtime:
                 return None
             try:
                 data = pickle.load(fd)
